@@ -181,6 +181,40 @@ void run_C09(Ctx &cx) {
       key_case(cx, k, blk, "round1-constant-columns");
     }
   }
+#if !defined(__SANITIZE_ADDRESS__)
+  // the block at every address offset 1..15 (build without UBSan's alignment check, see C10)
+  for (int off = 1; off < 16; off++) {
+    if (!cx.take()) continue;
+    cx.begin("{\"family\":\"unaligned-block-address\",\"offset\":" + std::to_string(off) + "}");
+    vh::Rng r = cx.case_rng();
+    for (int rep = 0; rep < 8; rep++) {
+      uint8_t k[16];
+      r.fill(k, 16);
+      alignas(16) uint8_t raw[16 * 4 + 32];
+      bytes plain = r.bytes_(64), want(64), back(64);
+      uint8_t z[16] = {0};
+      { ref::Stream s(0, true, k, z); s.run(plain.data(), want.data(), 64); }
+      uint8_t *blk = raw + off;
+      memcpy(blk, plain.data(), 64);
+      encryaes e(k);
+      decryaes d(k);
+      for (int i = 0; i < 4; i++) e.runaes_128bit(blk + 16 * i);
+      cx.rep.count("pairs_compared", 4);
+      if (memcmp(blk, want.data(), 64)) {
+        vh::J j;
+        j.num("address_offset", off).str("key", vh::hex(k, 16));
+        cx.rep.violation("C09|encrypt-mismatch|unaligned-block-address", "encryaes differs from FIPS-197 when the block is at an unaligned address", j.done());
+        break;
+      }
+      for (int i = 0; i < 4; i++) d.runaes_128bit(blk + 16 * i);
+      if (memcmp(blk, plain.data(), 64)) {
+        cx.rep.violation("C09|decrypt-not-inverse|unaligned-block-address", "decryaes(encryaes(x)) != x at an unaligned address", "{}");
+        break;
+      }
+    }
+    cx.rep.dist("class", vh::tuple_hash({424242, off}));
+  }
+#endif
   long long nkeys = cx.thorough ? 3000000 : 40000;
   for (long long i = 0; i < nkeys; i++) {
     if (!cx.take()) continue;
@@ -215,6 +249,12 @@ void stream_case(Ctx &cx, int mode, const uint8_t key[16], const uint8_t iv[16],
     size_t nb = std::min<size_t>(64, nblocks - done);
     r.fill(in, 16 * nb);
     if (family == "zero-plain") memset(in, 0, 16 * nb);
+    if (family == "sparse-plain")
+      for (size_t i = 0; i < nb; i++) {
+        unsigned mask = (unsigned)((done + i) * 7 + 3) & 15; // which of the four words stay
+        for (int w = 0; w < 4; w++)
+          if (!(mask & (1u << w))) memset(in + 16 * i + 4 * w, 0, 4);
+      }
     memcpy(out, in, 16 * nb);
     for (size_t i = 0; i < nb; i++) enc->runcry(out + 16 * i);
     rs.run(in, want, 16 * nb);
@@ -317,6 +357,8 @@ void run_C10(Ctx &cx) {
         family = "carry-soon";
       } else if (sel == 4)
         family = "zero-plain";
+      else if (sel == 5)
+        family = "sparse-plain"; // blocks with whole 4-byte words zero (first half / second half / single words)
       size_t nb = (size_t)r.below(301);
       if (sel == 1 || sel == 2) nb = 5 + (size_t)r.below(20);
       vh::J j;
